@@ -248,7 +248,7 @@ theorem doUpdate_find (s : State) (new : List GConfig) (n : String) :
     have hf : ∀ l : List String, List.filter (selected []) l = l := by
       intro l; apply List.filter_eq_self.mpr; intro a _; simp [selected]
     have hv : validNames [] = [] := rfl
-    simp only [doUpdate, reloadConfig, hv, updateCalls, hf]
+    simp only [doUpdate, reloadConfig, hv, updateCalls, hf, List.contains_nil, Bool.false_eq_true, if_false]
     rfl
   rw [hu, runCalls_append, runCalls_append]
   obtain ⟨r1, r2⟩ := removedBlock R { s with file := new } n
